@@ -460,6 +460,76 @@ def stream_work(arg):
     return total, len(states), viols
 
 
+def _conn():
+    ep = Endpoint()
+    req = FakeRequest()
+    buf = WebSocketTemporaryRingBuffer(req)
+    return ep, WebSocketTemporaryHandler(("1.2.3.4", 5), {}, {}, buf, ep)
+
+
+TWO_SEQS = [[(WebSocketOpCode.Binary, 5)], [(WebSocketOpCode.Text, 1), (WebSocketOpCode.Ping, 0)], [(WebSocketOpCode.Binary, 1), (WebSocketOpCode.Binary, 5)],
+            [(WebSocketOpCode.Text, 5)], [(WebSocketOpCode.Ping, 5), (WebSocketOpCode.Text, -3)]]
+
+
+def two_conn_work_init(tier):
+    stream_work_init(tier)
+
+
+def two_conn_work(arg):
+    """two websocket connections of one server process at the same time: each stream is cut once (every position) and the four
+    chunks arrive in every order that keeps the order within a connection; and a connection that ends in the middle of a frame
+    followed by a new one.  Every endpoint gets exactly its own frames."""
+    k, n = arg
+    viols = {}
+    total = 0
+    merges = [p for p in set(itertools.permutations("AABB")) if True]
+    idx = 0
+    for sa in TWO_SEQS:
+        for sb in TWO_SEQS:
+            idx += 1
+            if idx % n != k:
+                continue
+            da, wa = encode_seq(sa)
+            db, wb = encode_seq([(op, ln) for op, ln in reversed(sb)] if sa is sb else sb)
+            if sa is sb:
+                wb = encode_seq([(op, ln) for op, ln in reversed(sb)])[1]
+            for ca in range(1, len(da)):
+                for cb in range(1, len(db)):
+                    for order in merges:
+                        total += 1
+                        (epa, ha), (epb, hb) = _conn(), _conn()
+                        chunks = {"A": [da[:ca], da[ca:]], "B": [db[:cb], db[cb:]]}
+                        err = None
+                        try:
+                            for who in order:
+                                (ha if who == "A" else hb)(chunks[who].pop(0))
+                        except Exception as e:
+                            err = e
+                        la = [(o, bytes(p) if not isinstance(p, str) else p) for o, p in epa.log]
+                        lb = [(o, bytes(p) if not isinstance(p, str) else p) for o, p in epb.log]
+                        if err is not None or la != wa or lb != wb:
+                            wit = {"part": "two-connections", "a": [(op.value, ln) for op, ln in sa], "b": [(op.value, ln) for op, ln in sb], "cut_a": ca, "cut_b": cb, "order": "".join(order)}
+                            viols.setdefault(("stream-delivery", "frames of two simultaneous connections are not delivered each to its own endpoint (%s)" % (
+                                "handler raises %s" % type(err).__name__ if err is not None else "lost / mixed up")), [0, wit,
+                                "chunk order %s: A got %r (sent %r), B got %r (sent %r) %r" % ("".join(order), la[:3], wa[:3], lb[:3], wb[:3], err)])[0] += 1
+            # connection A dies in the middle of a frame; connection B opens afterwards
+            for ca in range(1, len(da)):
+                total += 1
+                (epa, ha), (epb, hb) = _conn(), _conn()
+                err = None
+                try:
+                    ha(da[:ca])
+                    hb(db)
+                except Exception as e:
+                    err = e
+                lb = [(o, bytes(p) if not isinstance(p, str) else p) for o, p in epb.log]
+                if err is not None or lb != wb:
+                    wit = {"part": "two-connections", "a": [(op.value, ln) for op, ln in sa], "b": [(op.value, ln) for op, ln in sb], "cut_a": ca, "cut_b": 0, "order": "AB"}
+                    viols.setdefault(("stream-delivery", "a connection opened after another one ended in the middle of a frame does not get its own frames"), [0, wit,
+                                     "A fed %d of %d bytes, then B: got %r, sent %r %r" % (ca, len(da), lb[:3], wb[:3], err)])[0] += 1
+    return total, 0, viols
+
+
 def _samples(tier):
     out = []
     seqs = frame_sequences(tier)
@@ -505,9 +575,17 @@ def run(tier, seed):
             if key not in acc:
                 acc[key] = [0, wit, msg]
             acc[key][0] += cnt
+    res = core.pmap("checks.c18", "two_conn_work", [(k, 8) for k in range(8)], initargs=(tier,))
+    t_total = sum(r[0] for r in res)
+    for r in res:
+        for key, (cnt, wit, msg) in r[2].items():
+            if key not in acc:
+                acc[key] = [0, wit, msg]
+            acc[key][0] += cnt
     for (oracle, sig), (cnt, wit, msg) in sorted(acc.items()):
         rep.add_violation(core.Violation(oracle, sig, wit, "%s [%d cases]" % (msg[:300], cnt)))
     rep.coverage = {
+        "two_connection_interleavings": t_total,
         "states": s_states + c_ok + f_ok, "transitions": s_total + c_total + f_total, "traces_validated_against_impl": s_total,
         "codec_frames": c_total, "codec_exact": c_ok, "factory_frames": f_total, "factory_exact": f_ok, "codec_lengths": len(ls), "stream_segmentations": s_total, "stream_frame_sequences": len(frame_sequences(tier)),
         "evaluations": c_total + s_total + f_total, "distinct_nontrivial": s_states + c_ok + f_ok,
@@ -531,6 +609,13 @@ def replay(witness):
     if witness.get("part") == "factory":
         total, ok, viols = factory_work([witness["length"]])
         return [core.Violation(k[0], k[1], witness, v[2]) for k, v in viols.items()]
+    if witness.get("part") == "two-connections":
+        stream_work_init("quick")
+        out = []
+        for k in range(8):
+            t, _, viols = two_conn_work((k, 8))
+            out += [core.Violation(kk[0], kk[1], witness, v[2]) for kk, v in viols.items()]
+        return out
     if witness.get("part") == "stream":
         seq = [(WebSocketOpCode(op), ln) for op, ln in witness["frames"]]
         data, want = encode_seq(seq)
